@@ -665,3 +665,22 @@ pub fn guess_is_pin(ty: &syn::Type) -> bool {
 
     false
 }
+
+/// Replace the value `self` with the `__self` surrogate in an expression.
+pub fn replace_self_expr_with_surrogate(mut expr: syn::Expr) -> syn::Expr {
+    struct Replacer;
+
+    impl syn::visit_mut::VisitMut for Replacer {
+        fn visit_expr_path_mut(&mut self, node: &mut syn::ExprPath) {
+            if node.qself.is_none() && node.path.is_ident("self") {
+                let span = node.path.segments[0].ident.span();
+                node.path = syn::Ident::new("__self", span).into();
+            }
+
+            syn::visit_mut::visit_expr_path_mut(self, node);
+        }
+    }
+
+    Replacer.visit_expr_mut(&mut expr);
+    expr
+}
